@@ -114,6 +114,10 @@ func (f *Facts) keepBind(v ssa.Value) bool {
 	if f.bindKeep[name] {
 		return true
 	}
+	// name-independent selection: "type:<type>" keeps every phi/cell of that type
+	if len(f.bindKeep) > 0 && f.bindKeep["type:"+typeShort(t)] {
+		return true
+	}
 	return isBoolType(t) || isErrorType(t)
 }
 
@@ -1099,6 +1103,34 @@ func (t *termRenderer) literals(s *pstate, cond ssa.Value, pol bool) []string {
 				}
 				return []string{a + " " + op + " " + b, b + " " + op + " " + a}
 			}
+			// a module-local predicate helper that is one comparison over its parameters (e.g.
+			// `func embeddable(size int) bool { return size <= hashLen }`) is read through: extracting such a helper
+			// leaves the guard literal unchanged, and a wrong operator or constant inside it is still seen
+			if strings.HasPrefix(f.Pkg.Pkg.Path(), modPath) && len(f.Blocks) == 1 && f.Signature.Recv() == nil {
+				if ret, ok := f.Blocks[0].Instrs[len(f.Blocks[0].Instrs)-1].(*ssa.Return); ok && len(ret.Results) == 1 {
+					p, v := pol, ret.Results[0]
+					for {
+						u, isNot := v.(*ssa.UnOp)
+						if !isNot || u.Op != token.NOT {
+							break
+						}
+						p, v = !p, u.X
+					}
+					if bo, ok := v.(*ssa.BinOp); ok {
+						if _, isCmp := flipOp[bo.Op]; isCmp {
+							lt, ok1 := t.inlineOperand(s, f, &x.Call, bo.X, 0)
+							rt, ok2 := t.inlineOperand(s, f, &x.Call, bo.Y, 0)
+							if ok1 && ok2 {
+								op := bo.Op
+								if !p {
+									op = flipOp[op]
+								}
+								return []string{lt + " " + op.String() + " " + rt, rt + " " + mirrorOp[op].String() + " " + lt}
+							}
+						}
+					}
+				}
+			}
 		}
 	}
 	ts := t.term(s, cond, 0)
@@ -1106,6 +1138,43 @@ func (t *termRenderer) literals(s *pstate, cond ssa.Value, pol bool) []string {
 		return []string{ts}
 	}
 	return []string{"!" + ts}
+}
+
+// inlineOperand renders an operand of a one-comparison helper in the caller's terms: parameters become the call's
+// arguments, constants stay, len() and conversions are followed. Anything else makes the helper opaque.
+func (t *termRenderer) inlineOperand(s *pstate, callee *ssa.Function, call *ssa.CallCommon, v ssa.Value, d int) (string, bool) {
+	if d > 4 {
+		return "", false
+	}
+	switch x := v.(type) {
+	case *ssa.Const:
+		return constStr(x), true
+	case *ssa.Parameter:
+		for i, p := range callee.Params {
+			if p == x && i < len(call.Args) {
+				return t.term(s, call.Args[i], 0), true
+			}
+		}
+	case *ssa.Convert:
+		return t.inlineOperand(s, callee, call, x.X, d+1)
+	case *ssa.ChangeType:
+		return t.inlineOperand(s, callee, call, x.X, d+1)
+	case *ssa.Call:
+		if b, ok := x.Call.Value.(*ssa.Builtin); ok && b.Name() == "len" && len(x.Call.Args) == 1 {
+			if a, ok := t.inlineOperand(s, callee, call, x.Call.Args[0], d+1); ok {
+				return "len(" + a + ")", true
+			}
+		}
+	case *ssa.BinOp:
+		if _, isCmp := flipOp[x.Op]; !isCmp {
+			a, ok1 := t.inlineOperand(s, callee, call, x.X, d+1)
+			b, ok2 := t.inlineOperand(s, callee, call, x.Y, d+1)
+			if ok1 && ok2 {
+				return "(" + a + " " + x.Op.String() + " " + b + ")", true
+			}
+		}
+	}
+	return "", false
 }
 
 // threeWay recognises `x.Cmp(y) OP k`, `x.Sign() OP k`, `bytes.Compare(a,b) OP k`.
@@ -1340,6 +1409,18 @@ func mustRe(s string) *regexp.Regexp { return regexp.MustCompile(s) }
 type PhiRow struct {
 	Val   string
 	State *pstate
+}
+
+// PhiTableOf returns, for every path state entering phi's block, the value the phi takes on that path.
+func (f *Facts) PhiTableOf(phi *ssa.Phi) []PhiRow {
+	var rows []PhiRow
+	if phi == nil {
+		return nil
+	}
+	for _, s := range f.in[phi.Block()] {
+		rows = append(rows, PhiRow{Val: f.tr.term(s, phi, 0), State: s})
+	}
+	return rows
 }
 
 // PhiTable finds the last phi (highest block) named `name` in fn and returns, for every path state entering its
